@@ -880,6 +880,113 @@ def linebreak_family(chk, thorough):
                mismatches=nb, branches=br)
 
 
+# ----------------------------------------------------------------------------------------------
+# round 8: wind cells that coincide with the minimum wind speed elsewhere in the file
+
+def wind_alias_run(chk, idx, M, D, days, dt, precision, windmin, mode):
+    """generate + driver-only simulate + write_epw on a copy of the Singapore file whose wind column is laid out so
+    that a writer (or reader) that looks at the wind cell of ANOTHER row - the row at the same offset counted from the
+    top of the file / of the data rows, a neighbour, a row 8 or 24 away - meets exactly the minimum wind speed there
+    while the row's own rural wind is calm:
+      mode 0: window rows calm (0.0 / 0.3*wmin), every row outside the window exactly the minimum;
+      mode 1: inside the window calm and exactly-minimum rows alternate with period 2, outside as mode 0;
+      mode 2: period 3 with a windy row (2.5*wmin) in between; outside the window calm.
+    Returns None or (what, observed, expected)."""
+    import s1_util as S
+    from uwg import UWG
+    work = chk.work()
+    rows = S.load_epw(simdriver.epw_path())
+    first = 8 + 24 * doy0(M, D)
+    N = 24 * days
+    wm = 1.0 if windmin is None else windmin
+    txt = lambda x: repr(round(x, 6))
+    for i in range(8, len(rows)):
+        n = i - first
+        inside = 0 <= n < N
+        if mode == 0:
+            w = [0.0, 0.3 * wm][n % 2] if inside else wm
+        elif mode == 1:
+            w = [0.3 * wm, wm][n % 2] if inside else wm
+        else:
+            w = [0.3 * wm, 2.5 * wm, wm][n % 3] if inside else 0.0
+        rows[i][21] = txt(w)
+    rural = S.save_epw(rows, os.path.join(work, 'c02w_%d.epw' % idx))
+    try:
+        with contextlib.redirect_stdout(io.StringIO()):
+            model = UWG.from_param_file(simdriver.param_path(), epw_path=rural, new_epw_dir=work,
+                                        new_epw_name='c02w_out_%d.epw' % idx)
+            model.month, model.day, model.nday, model.dtsim = M, D, days, dt
+            model.epw_precision = precision
+            if windmin is not None:
+                model.windmin = windmin
+            model.generate()
+    except Exception as e:  # noqa: BLE001
+        return ('generate raised %s on a rural file with legal wind cells' % type(e).__name__, str(e)[:200], 'a model')
+    res = simdriver.driver_only_run(model, check_forc=False)
+    if res.error:
+        return ('simulate (physics stubbed) raised %s' % res.error, res.error_msg, 'a complete run')
+    wmin = model.geoParam.windMin
+    if len(res.stored) != N:
+        return ('number of hourly records', len(res.stored), N)
+    iw = FORC_FIELDS.index('wind')
+    for n in range(N):
+        want = max(float(rows[first + n][21]), wmin)
+        if res.stored[n] is None or res.stored[n][iw] != want:
+            return ('wind of hourly forcing record %d (rural wind cell %r, minimum wind %r)' % (n, rows[first + n][21], wmin),
+                    None if res.stored[n] is None else res.stored[n][iw], want)
+    try:
+        with contextlib.redirect_stdout(io.StringIO()):
+            model.write_epw()
+    except Exception as e:  # noqa: BLE001
+        return ('write_epw raised %s' % type(e).__name__, str(e)[:200], 'a file')
+    with open(model.new_epw_path, newline='') as f:
+        new = [r for r in csv.reader(f) if r]
+    if len(new) != len(rows):
+        return ('rows in the written file', len(new), len(rows))
+    for i in range(8, len(rows)):
+        a, b = rows[i], new[i]
+        n = i - first
+        if 0 <= n < N:
+            want = '{0:.{1}f}'.format(max(float(a[21]), wmin), precision)
+            if b[21] != want:
+                return ('wind written to the row stamped %s/%s h%s = window row %d (its rural wind cell %r, minimum wind %r, '
+                        'epw_precision %d; wind cell of file line %d: %r, of data row %d: %r)' % (
+                            a[1], a[2], a[3], n, a[21], wmin, precision, n, rows[n][21:22], n, rows[8 + n][21]), b[21], want)
+            if b[:6] != a[:6] or b[9:21] != a[9:21] or b[22:] != a[22:]:
+                return ('unmodelled cells of the row stamped %s/%s h%s' % (a[1], a[2], a[3]), b[:22], a[:22])
+        elif a != b:
+            return ('row %d outside the window' % (i - 8), b[:22], a[:22])
+    return None
+
+
+def wind_alias_runs(chk, thorough):
+    rng = chk.rng
+    nruns = 6 if not thorough else 30
+    bad = []
+    for idx in range(nruns):
+        M, D = rng.choice(dates()[1:364]) if idx % 6 else (1, 1)
+        cfg = dict(month=M, day=D, nday=1 if idx % 2 else 2, dtsim=rng.choice([d for d in DIVISORS if d >= 300]),
+                   epw_precision=[1, 0, 2, 4, 1, 3][idx % 6], windmin=[None, 0.5, 2.5, 1.0, 0.25, 0.1][idx % 6],
+                   mode=idx % 3)
+        msg = wind_alias_run(chk, idx, M, D, cfg['nday'], cfg['dtsim'], cfg['epw_precision'], cfg['windmin'], cfg['mode'])
+        if msg:
+            bad.append((cfg, msg))
+    for cfg, msg in bad[:3]:
+        chk.violation('impl-violation', 'C02 written-wind oracle on a rural file whose calm rows coincide with rows '
+                      'holding exactly the minimum wind speed elsewhere in the file',
+                      case=dict(cfg, epw=simdriver.EPWS[0] + ' with the wind column of wind_alias_run(mode)'),
+                      observed={'what': msg[0], 'value': msg[1]}, expected=msg[2],
+                      how='harness/props/c02.py: wind_alias_run(chk, 0, month, day, nday, dtsim, epw_precision, windmin, mode)')
+    chk.direct('wind-oracle(calm rows whose namesake rows elsewhere hold exactly the minimum wind)', nruns, nruns,
+               'copies of the Singapore file whose wind column is laid out so that looking at the wind cell of any OTHER '
+               'row than the one being written / read (the row with the same index counted from the top of the file or '
+               'of the data rows, a neighbour, a row 8 or 24 away) meets exactly the minimum wind speed while the row '
+               'itself is calm - three layouts x minimum wind unset / 0.1 / 0.25 / 0.5 / 1 / 2.5 x epw_precision 0..4 x '
+               'windows that do and do not start on 1 January. Real generate + simulate (physics stubbed) + write_epw: '
+               'record n holds max(own rural wind, minimum); the cell written to row n is "{:.<p>f}" of it; every other '
+               'cell unchanged', mismatches=len(bad))
+
+
 def stamp_dt(k):
     """EPW hour-ending stamp of data row k from datetime: the row describes the hour beginning k hours
     after 1 Jan 00:00; month/day of that instant, hour number 1..24."""
@@ -1067,6 +1174,7 @@ def run(chk):
     circumstance_runs(chk, thorough)
     window_length_family(chk, thorough)
     linebreak_family(chk, thorough)
+    wind_alias_runs(chk, thorough)
     # the doubles named in theorem asis_float_rowidx_wrong are the ones CPython computes
     import math
     ph = 48 / 3600.
